@@ -17,14 +17,17 @@
 //! Rounding allowance: `K·eps·M·ecc` with `M` the magnitude of the coordinates and radii and
 //! `ecc = max(rx/ry, ry/rx)` (the conversion divides coordinate differences by each radius).
 //! Deviations above that are failures; they are *classified* (never tolerated) when they match the
-//! witness predicate of a known defect:
-//!   `fast-atan2-endpoint-drift`  end point off by at most (max |fast_atan2 − atan2| ≈ 2.04e-4 rad)
-//!                                × larger radius
-//!   `sweep-beyond-full-turn`     |sweep| > 2π: the Bézier sequences stop after one full turn
-//!   `tiny-radii-abs-epsilon`     rx·ry·|sin step| ≤ S::EPSILON: `Line::intersection` calls the two
-//!                                tangents parallel, control point = start point
-//!   `ctrl-intersection-cancellation`  the quadratic control point is off by no more than the a-priori
-//!                                rounding bound of `Line::intersection` on absolute positions
+//! witness predicate of a recorded defect.  Only the first is still open; the other classes belong
+//! to findings that are fixed in /repo and stay active so that a regression is reported under its name
+//! (a `fixed` entry of known_findings.json suppresses nothing):
+//!   `sweep-beyond-full-turn`     OPEN.  |sweep| > 2π: the Bézier sequences stop after one full turn
+//!   `fast-atan2-endpoint-drift`  fixed a39176c6 / 8ce8d2e3.  end point off by at most
+//!                                (max |fast_atan2 − atan2| ≈ 2.04e-4 rad) × larger radius
+//!   `tiny-radii-abs-epsilon`     fixed a403d79f.  rx·ry·|sin step| ≤ S::EPSILON: `Line::intersection`
+//!                                called the two tangents parallel, control point = start point
+//!   `ctrl-intersection-cancellation`  fixed a403d79f.  quadratic control point off by no more than the
+//!                                a-priori rounding bound of `Line::intersection` on absolute positions
+//!   `fast-atan2-sweep-wrap`      never observed: a sweep off by a whole turn near 0 / 2π
 
 use lyon_extra::parser::{ParserOptions, PathParser, Source};
 use lyon_geom::euclid::Angle;
